@@ -31,7 +31,8 @@
 (***************************************************************************)
 EXTENDS Integers, Sequences, FiniteSets, TLC
 
-CONSTANTS MaxCmds, NS, MaxDepth, IdGuard, StopOnOk, ShutdownWaits, TimerInLoop
+CONSTANTS MaxCmds, NS, MaxDepth, IdGuard, StopOnOk, ShutdownWaits, TimerInLoop,
+          OutCap     \* capacity of the output channel (lines the GUI has not read yet); 0 = sends never block
 
 K == 1..NS
 Cmds == {"isready", "pos", "go_d", "go_inf", "go_mt", "stop", "quit", "eof"}
@@ -51,9 +52,10 @@ VARIABLES lpc,       \* loop program counter
           timer,     \* search id a movetime timer is armed for (0 = none)
           tmq,       \* expired movetime waiting to be read by the loop (search id, 0 = none)
           superseded, \* searches whose go has been superseded by a later position/go
-          stopped    \* searches that were told to stop while the user was waiting for them
+          stopped,   \* searches that were told to stop while the user was waiting for them
+          outq       \* lines in the output channel that the GUI has not read yet
 
-vars == <<lpc, lcmd, ncmd, nsearch, active, eact, S, F, pond, outClosed, panic, best, bestSeq, ready, asked, cur, haltOk, timer, tmq, superseded, stopped>>
+vars == <<lpc, lcmd, ncmd, nsearch, active, eact, S, F, pond, outClosed, panic, best, bestSeq, ready, asked, cur, haltOk, timer, tmq, superseded, stopped, outq>>
 
 NoSearch == [st |-> "none", iters |-> 0, init |-> FALSE, quit |-> FALSE, canc |-> FALSE,
              slot |-> 0, closed |-> FALSE, hpv |-> 0, lim |-> 0, inf |-> FALSE]
@@ -64,11 +66,14 @@ Init == /\ lpc = "select" /\ lcmd = "none" /\ ncmd = 0 /\ nsearch = 0
         /\ S = [k \in K |-> NoSearch] /\ F = [k \in K |-> NoFwd]
         /\ pond = 0 /\ outClosed = FALSE /\ panic = FALSE
         /\ best = [k \in K |-> 0] /\ bestSeq = <<>> /\ ready = 0 /\ asked = 0 /\ cur = 0 /\ haltOk = FALSE
-        /\ timer = 0 /\ tmq = 0 /\ superseded = {} /\ stopped = {}
+        /\ timer = 0 /\ tmq = 0 /\ superseded = {} /\ stopped = {} /\ outq = 0
 
+\* room in the output channel / one more line in it
+CanSend == OutCap = 0 \/ outq < OutCap
+Put == outq' = IF OutCap = 0 THEN outq ELSE outq + 1
 \* a send of "bestmove" for search k on the output channel
-Send(k) == IF outClosed THEN /\ panic' = TRUE /\ UNCHANGED best
-           ELSE /\ panic' = panic /\ best' = [best EXCEPT ![k] = @ + 1]
+Send(k) == IF outClosed THEN /\ panic' = TRUE /\ UNCHANGED <<best, outq>>
+           ELSE /\ CanSend /\ Put /\ panic' = panic /\ best' = [best EXCEPT ![k] = @ + 1]
 \* the decision to answer (the completion compare-and-swap won by search k's result)
 Decide(k) == bestSeq' = Append(bestSeq, <<k, cur, k \in superseded, stopped>>)
 
@@ -80,24 +85,40 @@ ReadCmd ==
   /\ \E c \in Cmds :
        /\ (c \in {"go_d", "go_inf", "go_mt"} => nsearch < NS)
        /\ ncmd' = ncmd + 1 /\ lcmd' = c
-       /\ CASE c = "isready" -> /\ lpc' = "select" /\ ready' = ready + 1 /\ asked' = asked + 1
+       /\ CASE c = "isready" -> /\ lpc' = "readyok" /\ ready' = ready /\ asked' = asked + 1
             [] c = "pos" -> lpc' = "off" /\ UNCHANGED <<ready, asked>>
             [] c \in {"go_d", "go_inf", "go_mt"} -> lpc' = "off" /\ UNCHANGED <<ready, asked>>
             [] c = "stop" -> lpc' = "halt" /\ UNCHANGED <<ready, asked>>
             [] c \in {"quit", "eof"} -> lpc' = (IF ShutdownWaits THEN "off" ELSE "close") /\ UNCHANGED <<ready, asked>>
        /\ stopped' = IF c = "stop" /\ cur # 0 /\ active = Token(cur) THEN stopped \cup {cur} ELSE stopped
-  /\ UNCHANGED <<nsearch, active, eact, S, F, pond, outClosed, panic, best, bestSeq, cur, haltOk, timer, tmq, superseded>>
+  /\ UNCHANGED <<nsearch, active, eact, S, F, pond, outClosed, panic, best, bestSeq, cur, haltOk, timer, tmq, superseded, outq>>
+
+\* isready is answered by a (blocking) send on the output channel
+SendReadyOk ==
+  /\ lpc = "readyok" /\ CanSend /\ Put
+  /\ ready' = ready + 1 /\ lpc' = "select"
+  /\ UNCHANGED <<lcmd, ncmd, nsearch, active, eact, S, F, pond, outClosed, panic, best, bestSeq, asked, cur, haltOk, timer, tmq, superseded, stopped>>
 
 ReadPonder ==
   /\ lpc = "select" /\ pond > 0
-  /\ pond' = pond - 1
-  /\ UNCHANGED <<lpc, lcmd, ncmd, nsearch, active, eact, S, F, outClosed, panic, best, bestSeq, ready, asked, cur, haltOk, timer, tmq, superseded, stopped>>
+  /\ pond' = pond - 1 /\ lpc' = "info"
+  /\ UNCHANGED <<lcmd, ncmd, nsearch, active, eact, S, F, outClosed, panic, best, bestSeq, ready, asked, cur, haltOk, timer, tmq, superseded, stopped, outq>>
+
+\* ... and written to the output channel as an info line (blocking)
+SendInfo ==
+  /\ lpc = "info" /\ CanSend /\ Put /\ lpc' = "select"
+  /\ UNCHANGED <<lcmd, ncmd, nsearch, active, eact, S, F, pond, outClosed, panic, best, bestSeq, ready, asked, cur, haltOk, timer, tmq, superseded, stopped>>
+
+\* the GUI reads a line
+GuiRead ==
+  /\ outq > 0 /\ outq' = outq - 1
+  /\ UNCHANGED <<lpc, lcmd, ncmd, nsearch, active, eact, S, F, pond, outClosed, panic, best, bestSeq, ready, asked, cur, haltOk, timer, tmq, superseded, stopped>>
 
 \* ensureInactive step 1: nobody is waited for any more; a pending go is superseded
 ActiveOff ==
   /\ lpc = "off" /\ active' = 0 /\ lpc' = "halt"
   /\ superseded' = IF cur # 0 THEN superseded \cup {cur} ELSE superseded
-  /\ UNCHANGED <<lcmd, ncmd, nsearch, eact, S, F, pond, outClosed, panic, best, bestSeq, ready, asked, cur, haltOk, timer, tmq, stopped>>
+  /\ UNCHANGED <<lcmd, ncmd, nsearch, eact, S, F, pond, outClosed, panic, best, bestSeq, ready, asked, cur, haltOk, timer, tmq, stopped, outq>>
 
 \* Engine.Halt: waits until the active search (if any) has completed its first iteration
 EngineHalt ==
@@ -112,14 +133,14 @@ EngineHalt ==
               [] lcmd = "stop" -> "stopdone"
               [] lcmd = "timeout" -> "select"
               [] lcmd \in {"quit", "eof"} -> "waitfwd"
-  /\ UNCHANGED <<lcmd, ncmd, nsearch, active, F, pond, outClosed, panic, best, bestSeq, ready, asked, cur, timer, tmq, superseded, stopped>>
+  /\ UNCHANGED <<lcmd, ncmd, nsearch, active, F, pond, outClosed, panic, best, bestSeq, ready, asked, cur, timer, tmq, superseded, stopped, outq>>
 
 StopDone ==
   /\ lpc = "stopdone"
   /\ IF haltOk = StopOnOk /\ active = Token(cur) /\ cur # 0
        THEN active' = 0 /\ lpc' = "stopsend" /\ Decide(cur)
        ELSE lpc' = "select" /\ UNCHANGED <<active, bestSeq>>
-  /\ UNCHANGED <<lcmd, ncmd, nsearch, eact, S, F, pond, outClosed, panic, best, ready, asked, cur, haltOk, timer, tmq, superseded, stopped>>
+  /\ UNCHANGED <<lcmd, ncmd, nsearch, eact, S, F, pond, outClosed, panic, best, ready, asked, cur, haltOk, timer, tmq, superseded, stopped, outq>>
 
 StopSend ==
   /\ lpc = "stopsend" /\ Send(cur) /\ lpc' = "select"
@@ -132,33 +153,33 @@ Analyze ==
        /\ S' = [S EXCEPT ![k] = [NoSearch EXCEPT !.st = "run", !.lim = (IF lcmd = "go_d" THEN MaxDepth ELSE 0), !.inf = (lcmd = "go_inf")]]
        /\ timer' = IF lcmd = "go_mt" THEN k ELSE timer
   /\ lpc' = "activate"
-  /\ UNCHANGED <<lcmd, ncmd, active, F, pond, outClosed, panic, best, bestSeq, ready, asked, haltOk, tmq, superseded, stopped>>
+  /\ UNCHANGED <<lcmd, ncmd, active, F, pond, outClosed, panic, best, bestSeq, ready, asked, haltOk, tmq, superseded, stopped, outq>>
 
 Activate ==
   /\ lpc = "activate" /\ active' = Token(cur) /\ lpc' = "spawn"
-  /\ UNCHANGED <<lcmd, ncmd, nsearch, eact, S, F, pond, outClosed, panic, best, bestSeq, ready, asked, cur, haltOk, timer, tmq, superseded, stopped>>
+  /\ UNCHANGED <<lcmd, ncmd, nsearch, eact, S, F, pond, outClosed, panic, best, bestSeq, ready, asked, cur, haltOk, timer, tmq, superseded, stopped, outq>>
 
 Spawn ==
   /\ lpc = "spawn" /\ F' = [F EXCEPT ![cur].pc = "recv"] /\ lpc' = "select"
-  /\ UNCHANGED <<lcmd, ncmd, nsearch, active, eact, S, pond, outClosed, panic, best, bestSeq, ready, asked, cur, haltOk, timer, tmq, superseded, stopped>>
+  /\ UNCHANGED <<lcmd, ncmd, nsearch, active, eact, S, pond, outClosed, panic, best, bestSeq, ready, asked, cur, haltOk, timer, tmq, superseded, stopped, outq>>
 
 \* shutdown: while waiting for the forwarders the loop keeps draining the ponder channel
 \* (a forwarder blocked on a full channel could otherwise never finish)
 ShutdownDrain ==
   /\ lpc = "waitfwd" /\ pond > 0
   /\ pond' = pond - 1
-  /\ UNCHANGED <<lpc, lcmd, ncmd, nsearch, active, eact, S, F, outClosed, panic, best, bestSeq, ready, asked, cur, haltOk, timer, tmq, superseded, stopped>>
+  /\ UNCHANGED <<lpc, lcmd, ncmd, nsearch, active, eact, S, F, outClosed, panic, best, bestSeq, ready, asked, cur, haltOk, timer, tmq, superseded, stopped, outq>>
 
 \* shutdown: wait for every forwarder that was spawned, then close the output channel
 WaitForwarders ==
   /\ lpc = "waitfwd"
   /\ \A k \in K : F[k].pc \in {"none", "exit"}
   /\ lpc' = "close"
-  /\ UNCHANGED <<lcmd, ncmd, nsearch, active, eact, S, F, pond, outClosed, panic, best, bestSeq, ready, asked, cur, haltOk, timer, tmq, superseded, stopped>>
+  /\ UNCHANGED <<lcmd, ncmd, nsearch, active, eact, S, F, pond, outClosed, panic, best, bestSeq, ready, asked, cur, haltOk, timer, tmq, superseded, stopped, outq>>
 
 CloseOut ==
   /\ lpc = "close" /\ outClosed' = TRUE /\ lpc' = "exited"
-  /\ UNCHANGED <<lcmd, ncmd, nsearch, active, eact, S, F, pond, panic, best, bestSeq, ready, asked, cur, haltOk, timer, tmq, superseded, stopped>>
+  /\ UNCHANGED <<lcmd, ncmd, nsearch, active, eact, S, F, pond, panic, best, bestSeq, ready, asked, cur, haltOk, timer, tmq, superseded, stopped, outq>>
 
 \* the movetime timer fires
 TimerFire ==
@@ -169,14 +190,14 @@ TimerFire ==
           /\ IF eact = 0 THEN UNCHANGED <<S, eact>>
              ELSE /\ S[eact].init /\ S' = [S EXCEPT ![eact].quit = TRUE] /\ eact' = 0
   /\ timer' = 0
-  /\ UNCHANGED <<lpc, lcmd, ncmd, nsearch, active, F, pond, outClosed, panic, best, bestSeq, ready, asked, cur, haltOk, superseded, stopped>>
+  /\ UNCHANGED <<lpc, lcmd, ncmd, nsearch, active, F, pond, outClosed, panic, best, bestSeq, ready, asked, cur, haltOk, superseded, stopped, outq>>
 
 \* the loop reads an expired movetime: halt only if that search is still the awaited one
 ReadTimeout ==
   /\ lpc = "select" /\ tmq # 0
   /\ tmq' = 0
-  /\ IF active = Token(tmq) /\ active # 0 THEN lpc' = "halt" /\ lcmd' = "timeout" ELSE UNCHANGED <<lpc, lcmd>>
-  /\ UNCHANGED <<ncmd, nsearch, active, eact, S, F, pond, outClosed, panic, best, bestSeq, ready, asked, cur, haltOk, timer, superseded, stopped>>
+  /\ IF active = Token(tmq) /\ active # 0 THEN lpc' = "halt" /\ lcmd' = "timeout" ELSE UNCHANGED <<lpc, lcmd, outq>>
+  /\ UNCHANGED <<ncmd, nsearch, active, eact, S, F, pond, outClosed, panic, best, bestSeq, ready, asked, cur, haltOk, timer, superseded, stopped, outq>>
 
 \* ---------------- search goroutine k ----------------
 IterFinish(k) ==
@@ -184,22 +205,22 @@ IterFinish(k) ==
   /\ LET d == S[k].iters + 1 IN
        S' = [S EXCEPT ![k].iters = d, ![k].hpv = d, ![k].slot = d, ![k].init = TRUE,
                       ![k].st = IF (S[k].lim # 0 /\ d = S[k].lim) \/ S[k].quit THEN "closing" ELSE "run"]
-  /\ UNCHANGED <<lpc, lcmd, ncmd, nsearch, active, eact, F, pond, outClosed, panic, best, bestSeq, ready, asked, cur, haltOk, timer, tmq, superseded, stopped>>
+  /\ UNCHANGED <<lpc, lcmd, ncmd, nsearch, active, eact, F, pond, outClosed, panic, best, bestSeq, ready, asked, cur, haltOk, timer, tmq, superseded, stopped, outq>>
 
 SeeCancel(k) ==
   /\ S[k].st = "run" /\ S[k].canc
   /\ S' = [S EXCEPT ![k].st = "closing"]
-  /\ UNCHANGED <<lpc, lcmd, ncmd, nsearch, active, eact, F, pond, outClosed, panic, best, bestSeq, ready, asked, cur, haltOk, timer, tmq, superseded, stopped>>
+  /\ UNCHANGED <<lpc, lcmd, ncmd, nsearch, active, eact, F, pond, outClosed, panic, best, bestSeq, ready, asked, cur, haltOk, timer, tmq, superseded, stopped, outq>>
 
 CancelDeliver(k) ==
   /\ S[k].quit /\ ~S[k].canc /\ S[k].st # "none"
   /\ S' = [S EXCEPT ![k].canc = TRUE]
-  /\ UNCHANGED <<lpc, lcmd, ncmd, nsearch, active, eact, F, pond, outClosed, panic, best, bestSeq, ready, asked, cur, haltOk, timer, tmq, superseded, stopped>>
+  /\ UNCHANGED <<lpc, lcmd, ncmd, nsearch, active, eact, F, pond, outClosed, panic, best, bestSeq, ready, asked, cur, haltOk, timer, tmq, superseded, stopped, outq>>
 
 SearchExit(k) ==
   /\ S[k].st = "closing"
   /\ S' = [S EXCEPT ![k].st = "exit", ![k].closed = TRUE, ![k].init = TRUE]
-  /\ UNCHANGED <<lpc, lcmd, ncmd, nsearch, active, eact, F, pond, outClosed, panic, best, bestSeq, ready, asked, cur, haltOk, timer, tmq, superseded, stopped>>
+  /\ UNCHANGED <<lpc, lcmd, ncmd, nsearch, active, eact, F, pond, outClosed, panic, best, bestSeq, ready, asked, cur, haltOk, timer, tmq, superseded, stopped, outq>>
 
 \* ---------------- forwarder goroutine k ----------------
 FwdRecv(k) ==
@@ -210,19 +231,19 @@ FwdRecv(k) ==
      \/ /\ S[k].slot = 0 /\ S[k].closed
         /\ F' = [F EXCEPT ![k].pc = IF S[k].inf THEN "exit" ELSE "cas"]
         /\ UNCHANGED S
-  /\ UNCHANGED <<lpc, lcmd, ncmd, nsearch, active, eact, pond, outClosed, panic, best, bestSeq, ready, asked, cur, haltOk, timer, tmq, superseded, stopped>>
+  /\ UNCHANGED <<lpc, lcmd, ncmd, nsearch, active, eact, pond, outClosed, panic, best, bestSeq, ready, asked, cur, haltOk, timer, tmq, superseded, stopped, outq>>
 
 FwdPonder(k) ==
   /\ F[k].pc = "pond" /\ pond < 3
   /\ pond' = pond + 1 /\ F' = [F EXCEPT ![k].pc = "recv"]
-  /\ UNCHANGED <<lpc, lcmd, ncmd, nsearch, active, eact, S, outClosed, panic, best, bestSeq, ready, asked, cur, haltOk, timer, tmq, superseded, stopped>>
+  /\ UNCHANGED <<lpc, lcmd, ncmd, nsearch, active, eact, S, outClosed, panic, best, bestSeq, ready, asked, cur, haltOk, timer, tmq, superseded, stopped, outq>>
 
 FwdCas(k) ==
   /\ F[k].pc = "cas"
   /\ IF active = Token(k) /\ active # 0
        THEN active' = 0 /\ F' = [F EXCEPT ![k].pc = "send"] /\ Decide(k)
        ELSE UNCHANGED <<active, bestSeq>> /\ F' = [F EXCEPT ![k].pc = "exit"]
-  /\ UNCHANGED <<lpc, lcmd, ncmd, nsearch, eact, S, pond, outClosed, panic, best, ready, asked, cur, haltOk, timer, tmq, superseded, stopped>>
+  /\ UNCHANGED <<lpc, lcmd, ncmd, nsearch, eact, S, pond, outClosed, panic, best, ready, asked, cur, haltOk, timer, tmq, superseded, stopped, outq>>
 
 FwdSend(k) ==
   /\ F[k].pc = "send" /\ Send(k) /\ F' = [F EXCEPT ![k].pc = "exit"]
@@ -231,13 +252,14 @@ FwdSend(k) ==
 Done == lpc = "exited" \/ (lpc = "select" /\ ncmd = MaxCmds)
 Idle == Done /\ UNCHANGED vars
 
-Next == ReadCmd \/ ReadPonder \/ ActiveOff \/ EngineHalt \/ StopDone \/ StopSend \/ Analyze \/ Activate \/ Spawn
+Next == ReadCmd \/ SendReadyOk \/ ReadPonder \/ SendInfo \/ GuiRead \/ ActiveOff \/ EngineHalt \/ StopDone \/ StopSend \/ Analyze \/ Activate \/ Spawn
         \/ WaitForwarders \/ ShutdownDrain \/ CloseOut \/ TimerFire \/ ReadTimeout
         \/ (\E k \in K : IterFinish(k) \/ SeeCancel(k) \/ CancelDeliver(k) \/ SearchExit(k)
                         \/ FwdRecv(k) \/ FwdPonder(k) \/ FwdCas(k) \/ FwdSend(k))
         \/ Idle
 
-Fairness == /\ WF_vars(ReadPonder \/ ActiveOff \/ EngineHalt \/ StopDone \/ StopSend \/ Analyze \/ Activate \/ Spawn \/ WaitForwarders \/ ShutdownDrain \/ CloseOut \/ ReadTimeout)
+Fairness == /\ WF_vars(GuiRead)          \* a GUI that keeps reading; safety does not depend on it
+            /\ WF_vars(SendReadyOk \/ SendInfo \/ ReadPonder \/ ActiveOff \/ EngineHalt \/ StopDone \/ StopSend \/ Analyze \/ Activate \/ Spawn \/ WaitForwarders \/ ShutdownDrain \/ CloseOut \/ ReadTimeout)
             /\ WF_vars(TimerFire)
             /\ \A k \in K : WF_vars(IterFinish(k) \/ SeeCancel(k) \/ CancelDeliver(k) \/ SearchExit(k))
             /\ \A k \in K : WF_vars(FwdRecv(k) \/ FwdPonder(k) \/ FwdCas(k) \/ FwdSend(k))
@@ -248,7 +270,7 @@ FairSpec == Spec /\ Fairness
 (* ------------------------------ properties ----------------------------- *)
 NoPanic == ~panic                                   \* no send on the closed output channel
 AtMostOneBest == \A k \in K : best[k] <= 1          \* never two answers for one go
-ReadyOk == ready = asked                            \* every isready answered
+ReadyOk == ready = asked - (IF lpc = "readyok" THEN 1 ELSE 0)   \* every isready answered (the one being answered excepted)
 \* a bestmove is only ever emitted for the search of the current go, never for a superseded one
 \* (judged at the decision, i.e. the completion compare-and-swap: a bestmove on its way when
 \* the next command is read is the GUI racing itself, not the driver)
@@ -260,6 +282,6 @@ Answered == \A k \in K : (S[k].st = "exit" /\ ~S[k].inf /\ k \notin superseded /
 StopAnswered == \A k \in K : (k \in stopped) ~> (best[k] = 1 \/ k \in superseded \/ lpc = "exited")
 \* the loop always gets back to its select (no deadlock inside a handler), or exits
 LoopReturns == (lpc # "select") ~> (lpc \in {"select", "exited"})
-View == <<lpc, lcmd, ncmd, nsearch, active, eact, S, F, pond, outClosed, panic, best, cur, haltOk, timer, tmq, superseded, stopped, ready - asked,
+View == <<lpc, lcmd, ncmd, nsearch, active, eact, S, F, pond, outClosed, panic, best, cur, haltOk, timer, tmq, superseded, stopped, ready - asked, outq,
           {i \in 1..Len(bestSeq) : bestSeq[i][1] # bestSeq[i][2] \/ bestSeq[i][3]}>>
 =============================================================================
